@@ -40,8 +40,10 @@ Section Exec.
   Variables (t : tree) (fl : file) (cfg : config) (glob : globals) (regexes : list rx)
             (find : rx -> str -> option (list (option (N * N))))
             (call : ident -> graph -> list value -> res (value * graph)).
+  Variable eaok : amap -> Prop.
   Variable okfn : ident -> Prop.
   Variable n0 : N.
+  Hypothesis Hea : forall l : loc, eaok (match c_loc_attr cfg with Some k => [(k, VStr (loc_text l))] | None => [] end).
   Hypothesis Hcall : forall f, okfn f -> call_ok call f.
   Hypothesis Hglob : forall name v, globals_get glob name = Some v -> vall (fun i => i < n0) v.
   Variable s0 : lstate.
@@ -59,7 +61,7 @@ Section Exec.
   (* the canonical delta of a block: it succeeds alone from s0 and appends d *)
   Definition block_delta (fuel : nat) (pm : N * qmatch) (d : delta) : Prop :=
     exists st s' p', nth_error (f_stanzas fl) (N.to_nat (fst pm)) = Some st /\ run st (snd pm) fuel s0 (polls0 None) = Ok (tt, s', p') /\
-                     extends s0 d s' /\ delta_ok okfn n0 (gn s0) (sn s0) d.
+                     extends s0 d s' /\ delta_ok eaok okfn n0 (gn s0) (sn s0) d.
 
   Lemma block_delta_det fuel pm d1 d2 : block_delta fuel pm d1 -> block_delta fuel pm d2 -> d1 = d2.
   Proof. intros (st & s' & p' & E1 & R1 & X1 & _) (st2 & s2 & p2 & E2 & R2 & X2 & _). rewrite E1 in E2. inversion E2; subst st2. rewrite R1 in R2. inversion R2; subst. eapply extends_det; eauto. Qed.
@@ -80,7 +82,7 @@ Section Exec.
     - cbn. split; [exact Hp|]. exists []. split; [constructor|]. cbn [lay dcat fold_right]. apply extends_nil; reflexivity.
     - inversion Hok as [|? ? Hpm Hrest]; subst. unfold bind, bstep at 1. destruct (nth_error (f_stanzas fl) (N.to_nat (fst pm))) as [st|] eqn:Est.
       2:{ cbn. intros (ds & HF). inversion HF as [|? d ? ds' (st & s' & p' & E & _) _]; subst. congruence. }
-      pose proof (block_shift t fl cfg glob regexes find call okfn n0 Hcall Hglob st (snd pm) fuel s0 s p (Hpm st Est) Hs0n Hn Hs0f Hf) as SH.
+      pose proof (block_shift t fl cfg glob regexes find call eaok okfn n0 Hea Hcall Hglob st (snd pm) fuel s0 s p (Hpm st Est) Hs0n Hn Hs0f Hf) as SH.
       pose proof (run_repoll t fl cfg glob regexes find call st (snd pm) fuel s0 p (polls0 None) Hp nob0) as RP.
       assert (Hfail : forall r, run st (snd pm) fuel s0 p = r -> (forall u s' p', r <> Ok (u, s', p')) -> ~ exists ds, Forall2 (block_delta fuel) (pm :: ms) ds).
       { intros r Er Hno (ds & HF). inversion HF as [|? d ? ds' (st2 & s' & p' & E & Rn & _) _]; subst. rewrite Est in E. inversion E; subst st2.
